@@ -41,6 +41,8 @@ fn lite(props: Props, rule: &'static str, detail: String, op: Option<Op>, extra_
 /// Marks the key of a post-fault state whose hook-visible part equals the
 /// pre-state while the cache object's bytes changed.
 pub const HIDDEN_MAGIC: &[u8] = b"\xEE<hidden-state>\xEE";
+/// the same without a fault: an ordinary operation that looks like a self-loop to the hook
+pub const HIDDEN_MAGIC_T: &[u8] = b"\xEE<hidden-state-t>\xEE";
 
 /// The bytes of the cache object itself (not of what it points to).
 pub fn raw_bytes(c: &Cache) -> Vec<u8> {
